@@ -4,8 +4,11 @@
 (* Every behaviour observed on the real server (the replays of the TLC      *)
 (* tours and the random histories) is checked against Apq!PropRel, the      *)
 (* permissive relation that says only what C15 states.  The specification   *)
-(* state simply FOLLOWS the observation (cache := contents read out of the  *)
-(* real cache, sent := pairs the harness sent), so nothing the              *)
+(* state simply FOLLOWS the observation (cache := the OBSERVED BINDING of    *)
+(* the real cache: what its public Get / Add last showed it to bind - an    *)
+(* Add(k,v) and a Get hit (k,v) set k -> v, a Get miss forgets k; the real  *)
+(* cache is never inspected, so ANY implementation of it is judged by its   *)
+(* behaviour; sent := pairs the harness sent), so nothing the               *)
 (* implementation chooses freely (recency, eviction, capacity, which cache  *)
 (* operations it performs, whether and when it registers, error classes,    *)
 (* version spellings) can make a trace unacceptable; a line is BAD only if  *)
@@ -17,9 +20,11 @@
 (*    "out":{submit,exec,class,ops},   observed (exec: text identified by   *)
 (*                                     the fields in the response data)     *)
 (*    "pre":[[h,t],..], "ents":[[h,t],..], "order":[..],                    *)
-(*    "chg":"y"|"n",     some cache operation of THIS request changed the   *)
-(*                       contents (seen by the decorator, under its lock)   *)
-(*    "boundok":"y"|"n"} real sha256(value) = key for every real entry      *)
+(*    "pre"/"ents": observed binding before / after the request,            *)
+(*    "chg":"y"|"n",     an Add of THIS request changed the observed        *)
+(*                       binding (seen by the decorator, under its lock)    *)
+(*    "boundok":"y"|"n"} real sha256(value) = key for every pair the real   *)
+(*                       cache was shown to bind                            *)
 EXTENDS Apq, TLC, Json
 
 Trace == ndJsonDeserialize("trace.ndjson")
